@@ -173,7 +173,8 @@ class Reference(object):
 
     def individual(self, i, psi_i):
         t, y = self.data[i]
-        pred = probes.probe_output(0, t, psi_i[:-1])
+        mech_par = list(psi_i[:-1]) + ([self.rec['_llfix']] if self.rec.get('_llfix') is not None else [])
+        pred = probes.probe_output(0, t, mech_par)
         sig = psi_i[-1]
         tot = 0.0
         for n in range(len(t)):
@@ -217,13 +218,23 @@ def build(rec, rng, tag):
         pop.fix_parameters(d)
     data = []
     lls = []
+    llfix = round(float(rng.uniform(0.5, 1.5)), 3) if rng.integers(3) == 0 else None
+    rec['_llfix'] = llfix
     for i in range(nids):
         nt = int(rng.integers(1, 4))
         t = np.sort(np.round(rng.uniform(0.1, 3.0, size=nt), 2))
         y = np.round(rng.uniform(1.0, 4.0, size=nt), 3)
         data.append((t, y))
-        mech = probes.ProbeMech(ndim - 1, 1, tag=tag + 'm%d' % i)
-        lls.append(chi.LogLikelihood(mech, chi.GaussianErrorModel(), y, t))
+        if llfix is None:
+            mech = probes.ProbeMech(ndim - 1, 1, tag=tag + 'm%d' % i)
+            lls.append(chi.LogLikelihood(mech, chi.GaussianErrorModel(), y, t))
+        else:
+            # the individual likelihoods carry a parameter fixed at THEIR level (C03: "with or without fixed parameters"):
+            # one more mechanistic parameter, the last one fixed -- names and dimensions of the free ones are unchanged
+            mech = probes.ProbeMech(ndim, 1, tag=tag + 'm%d' % i)
+            ll = chi.LogLikelihood(mech, chi.GaussianErrorModel(), y, t)
+            ll.fix_parameters({'P%d' % ndim: llfix})
+            lls.append(ll)
     covs = np.round(rng.uniform(0.0, 1.0, size=(nids, max(rec['ncov'], 1))), 2)[:, :rec['ncov']]
     hll = chi.HierarchicalLogLikelihood(lls, pop, covariates=covs if rec['ncov'] > 0 else None)
     return hll, pop, lls, data, covs, fixed_vals, vals
@@ -249,6 +260,9 @@ def replay_case(arg):
         with warnings.catch_warnings():
             warnings.simplefilter('error', RuntimeWarning)
             hll, pop, lls, data, covs, fixed_vals, vals = build(rec, rng, 'p' + key)
+        if rec.get('_llfix') is not None:
+            feats.append('likelihood_level_fixed')
+            cnt['feat_likelihood_level_fixed'] = 1
     except Exception as e:
         if rec.get('_reduced_before_nids') and any(m['kind'] == 'H' for m in rec['subs']) and rec['nids'] > 1:
             feats.append('reduced_before_nids_hetero')
